@@ -42,7 +42,7 @@ fn main() {
 		PartSpec {
 			name: "monitor-persister-crash",
 			rule: "2-node channel history (payments both ways incl. dust, held HTLCs claimed/failed, fee updates, blocks, cleanup_stale_updates(lazy|eager), optional cooperative / force close by either side with pending HTLCs, post-close preimage claims, on-chain claim rounds, optional archive) persisted by both nodes through MonitorUpdatingPersister(maximum_pending_updates in {0,1,2,3,5,10,100}); live log + replays of the recorded call script with other settings: every crash prefix x lazy-removal outcomes recovered; then every store-operation position fails once. Non-trivial: some crash prefix ends right after an update write and some prefix ends inside a clean-up with a lazy removal undecided.",
-			quick_cases: 48,
+			quick_cases: 64,
 			thorough_cases: 2400,
 			max_shrink: 24,
 		},
